@@ -18,12 +18,12 @@ pub struct C02;
 pub const ENUM_P: u64 = 352;
 pub const ENUM_E: u64 = 4 * 32;
 
-const WORLD_DIMS: &[&str] = &["rand", "stdout", "stderr", "merged", "stdin", "cwd_name", "spelling", "rust_backtrace", "stack"];
+const WORLD_DIMS: &[&str] = &["rand", "stdout", "stderr", "merged", "stdin", "cwd_name", "spelling", "rust_backtrace", "stack", "env_bytes", "sig", "fds", "locale", "env_kind", "uid"];
 
 fn pick_program(ctx: &Ctx, rng: &mut Rng) -> programs::Picked {
     match rng.below(10) {
         0..=2 => programs::pick_w1(ctx, rng),
-        3 => programs::pick_w5(rng),
+        3 => if rng.chance(1, 2) { programs::pick_w5(rng) } else { programs::pick_w6(rng) },
         4..=5 => programs::pick_w4(ctx, rng),
         6..=8 => crate::w2::pick(rng, &crate::w2::GenOpts::default()),
         _ => crate::w3::pick(rng),
@@ -41,7 +41,7 @@ impl Property for C02 {
         if tier == "thorough" { 1_200_000 } else { 40_000 }
     }
     fn rule(&self) -> String {
-        "thorough tier additionally enumerates every single write fault (fd 1 and fd 2, one-shot ENOSPC and persistent EIO/EPIPE) at every write index < 32 of every corpus script; sampled cases: case = (program from W1|W4|W2|W3) x (world subset: hash keys, sink kinds, 2>&1, stdin, cwd, spelling, RUST_BACKTRACE, stack limit; 3% non-UTF-8 argv[1]) x (fault plan: 1 fault in 85% of cases, 2-4 otherwise, drawn from write errors/torn writes on fd 1 and fd 2 at a write index of the fault-free run (6 errnos, one-shot or persistent), read errors, open errors, getcwd errors, truncated delivery, stored-byte corruption, plus chunking/EINTR); oracle: exit status in {0,103}, no signal, no hang; non-trivial = at least one fault fired or argv[1] not UTF-8; distinct = distinct (program, world, plan)".to_string()
+        "thorough tier additionally enumerates every single write fault (fd 1 and fd 2, one-shot ENOSPC and persistent EIO/EPIPE) at every write index < 32 of every corpus script; sampled cases: case = (program from W1|W4|W5|W6|W2|W3) x (world subset: hash keys, sink kinds incl. terminals, 2>&1, stdin, cwd, spelling, RUST_BACKTRACE, stack limit, locale, environment incl. entries that are not valid Unicode, inherited signal state, extra open fds, uid; 3% non-UTF-8 argv[1]) x (fault plan: 1 fault in 85% of cases, 2-4 otherwise, drawn from write errors/torn writes on fd 1 and fd 2 at a write index of the fault-free run (6 errnos, one-shot or persistent), read errors, open errors, getcwd errors, truncated delivery, stored-byte corruption (invalid UTF-8, illegal character, corrupted call name / operator / stray comma in W2 programs so that located diagnostics with stack traces are produced), plus chunking/EINTR); oracle: exit status in {0,103}, no signal, no hang; non-trivial = at least one fault fired or argv[1] not UTF-8; distinct = distinct (program, world, plan)".to_string()
     }
     fn assumptions(&self) -> Vec<String> {
         vec![
@@ -117,6 +117,16 @@ impl Property for C02 {
             }
             plan.items.push(it);
         }
+        if p.label.starts_with("W2") && rng.chance(1, 5) {
+            // a located runtime/syntax diagnostic (with stack trace, after multi-byte
+            // text) produced by storage corruption, so that the diagnostic path itself
+            // runs under every world and sink fault
+            let w2p = crate::w2::build(&p.aux);
+            if let Some(it) = crate::props::c17::flip_item(rng, &w2p) {
+                plan.items.retain(|i| !matches!(i, Item::Flip { .. } | Item::Eof { .. }));
+                plan.items.push(it);
+            }
+        }
         if rng.chance(1, 2) {
             plan.items.extend(faults::spread_items(rng));
         }
@@ -179,7 +189,7 @@ impl Property for C02 {
         for f in &out.fired {
             out.cells.push(format!("fired:{f}"));
         }
-        out.nontrivial = !out.fired.is_empty() || case.world.file_name == 4;
+        out.nontrivial = !out.fired.is_empty() || case.world.file_name == 4 || case.world != World::reference();
         if !matches!(r.status, Status::Exit(0) | Status::Exit(103)) {
             let cause = if case.world.file_name == 4 {
                 "argv1-not-utf8"
